@@ -37,10 +37,11 @@ m = {
    "add_only": True,
  },
  "engines": [
-   {"name": "pv", "path": "harness/", "serves_properties": sorted(checks), "kind_free_text": "Rust binary driving proptest 1.11 TestRunners (fixed seeds, construction-based strategies, integrated shrinking) on 16 worker threads, with exact reference semantics, exhaustive enumerators, a RUP checker and output parsers; the CLI properties spawn the real pumpkin-solver binary"},
+   {"name": "pv", "path": "harness/", "serves_properties": sorted(checks), "kind_free_text": "Rust binary driving proptest 1.11 TestRunners (fixed seeds, construction-based strategies, integrated shrinking) on 16 worker threads, with exact reference semantics, exhaustive enumerators, a DRCP checker, a RUP checker and output parsers; the CLI properties spawn the real pumpkin-solver binary; harness and binary are built with optimisation and arithmetic overflow checks"},
+   {"name": "pv-fuzz", "path": "harness/fuzz/", "serves_properties": ["C01", "C02", "C03", "C04", "C05", "C06", "C07", "C09", "C10", "C11", "C12", "C16", "C17", "C18"], "kind_free_text": "cargo-fuzz / libFuzzer target (thorough tier only, started by fuzz.sh from run.sh): the fuzzer's bytes drive the property's own proptest strategy through proptest's pass-through RNG, the property's oracle judges the case, a violation is written as a replay file in the same format as the proptest campaigns"},
  ],
  "checks": [],
- "notes": "Every command rebuilds the harness (and pumpkin-solver with it) from /repo's working tree; exit 0 held / 1 violation (VIOLATION line) / 2 harness problem, generator-health or watchdog (inconclusive). known_findings.jsonl lists recorded findings and fixed defects; see DESIGN.md.",
+ "notes": "The thorough tier of the in-process properties runs a libFuzzer stage first (VERIF_FUZZ_RUNS runs x VERIF_FUZZ_JOBS processes) and then the proptest campaign. Every command rebuilds the harness (and pumpkin-solver with it) from /repo's working tree; exit 0 held / 1 violation (VIOLATION line) / 2 harness problem, generator-health or watchdog (inconclusive). known_findings.jsonl lists recorded findings and fixed defects; see DESIGN.md.",
  "not_applicable": [{"property_id": p, "reason": "check not built yet in this round (planned, see DESIGN.md)"} for p in pending],
 }
 for pid,(cat,tech,text,ref) in sorted(checks.items()):
